@@ -333,10 +333,10 @@ def run(chk):
     simpl, _ = tie(chk, "prefix runs split by parentheses (value)", scases, labels=slabels)
     for i in range(0, len(scases), 2):
         ra, rb = split_result(simpl[i])[:2], split_result(simpl[i + 1])[:2]
-        if ra[0] == "ERR":
-            ra = ("ERR", "")
-        if rb[0] == "ERR":
-            rb = ("ERR", "")
+        if ra[0] in ("ERR", "CERR"):
+            ra = (ra[0], "")        # which failure, and for a source that does not compile where (the two texts differ in length), is not compared
+        if rb[0] in ("ERR", "CERR"):
+            rb = (rb[0], "")
         if not is_dead(simpl[i]) and not is_dead(simpl[i + 1]) and ra != rb:
             chk.violation("adding parentheses that agree with the structure, or changing white space, changed the result",
                           dict(case=scases[i], source=slabels[i], other=slabels[i + 1], impl=simpl[i], other_result=simpl[i + 1]))
@@ -361,8 +361,8 @@ def run(chk):
                               dict(case=pcases[i], source=plabels[i], expected_shape=repr(pwant[i]), got_shape=repr(got)))
                 break
             ev = split_result(eimpl[i])[:2]
-            if ev[0] == "ERR":
-                ev = ("ERR", "")
+            if ev[0] in ("ERR", "CERR"):
+                ev = (ev[0], "")
             if base is None:
                 base = (ev, plabels[i])
             elif ev != base[0]:
